@@ -128,7 +128,7 @@ class Stepper:
             return st.sampled_from([{'op': 'check_restored'}, {'op': 'resolve'}])
         return st.sampled_from([{'op': 'next_section'}, {'op': 'next_section'}, {'op': 'next_section'}, {'op': 'verify'}, {'op': 'tifa'}, {'op': 'run'},
                                 {'op': 'verify'}, {'op': 'run'}, {'op': 'tifa'}, {'op': 'verify'}, {'op': 'run'}, {'op': 'next_section'},
-                                {'op': 'stop_sections'}, {'op': 'resolve'}])
+                                {'op': 'call'}, {'op': 'evaluate'}, {'op': 'call'}, {'op': 'stop_sections'}, {'op': 'resolve'}])
 
     # ------------------------------------------------------------------
     def active_reference(self):
@@ -267,6 +267,60 @@ class Stepper:
                     if msg_lines != ref_lines[-len(msg_lines):] if msg_lines else bool(ref_lines):
                         viol.append(V('C17|line|runtime-traceback|%s' % self.mode(), '%s traceback lines in the message are %r, plain Python frames are on file lines %r'
                                       % (ref_name, msg_lines, ref_lines)))
+            elif kind in ('call', 'evaluate'):
+                # a function of the active section fails when the instructor calls it: the location is still a whole-file line
+                code, positioned = self.active_reference()
+                if code is None:
+                    return viol
+                try:
+                    compiled = compile(positioned, FILENAME, 'exec')
+                except SyntaxError:
+                    return viol
+                ns = {'__name__': '__main__'}
+                with contextlib.redirect_stdout(io.StringIO()):
+                    try:
+                        exec(compiled, ns)
+                    except Exception:
+                        return viol
+                import types
+                names = sorted(n for n, v in ns.items() if isinstance(v, types.FunctionType) and n.startswith('f'))
+                if not names:
+                    return viol
+                from pedal.sandbox.commands import get_sandbox
+                sb = get_sandbox()
+                sb.clear_data()
+                sb.run()
+                if sb.exception is not None:
+                    return viol
+                for name in names[:2]:
+                    try:
+                        ns[name]('text')
+                        continue
+                    except Exception as e:
+                        ref_lines = [fr.lineno for fr in traceback.extract_tb(e.__traceback__) if fr.filename == FILENAME]
+                        ref_name = type(e).__name__
+                    if not ref_lines:
+                        continue
+                    n0 = len(self.report.feedback)
+                    if kind == 'call':
+                        sb.call(name, 'text')
+                    else:
+                        sb.evaluate('%s(%r)' % (name, 'text'))
+                    new = [f for f in self.report.feedback[n0:] if (f.category or '').lower() == 'runtime']
+                    self.flags.add('call-in-section')
+                    if len(new) != 1:
+                        viol.append(V('C17|%s|missed' % kind, '%s(%s) in section %d fails in plain Python (%s) but %d runtime feedbacks were attached'
+                                      % (kind, name, self.section, ref_name, len(new))))
+                        continue
+                    fb = new[0]
+                    got = fb.location.line if fb.location else None
+                    if got != ref_lines[-1]:
+                        viol.append(V('C17|line|%s-location|%s' % (kind, self.mode()), '%s(%s): %s raised on file line %d, feedback location says %r (section %d, %s)'
+                                      % (kind, name, ref_name, ref_lines[-1], got, self.section, self.mode())))
+                    msg_lines = [int(n) for n in re.findall(r'Line (\d+) of file %s' % re.escape(FILENAME), str(fb.fields.get('traceback_message') or ''))]
+                    if msg_lines and msg_lines != ref_lines[-len(msg_lines):]:
+                        viol.append(V('C17|line|%s-traceback|%s' % (kind, self.mode()), '%s(%s): traceback lines in the message are %r, plain Python frames are on file lines %r'
+                                      % (kind, name, msg_lines, ref_lines)))
             elif kind in ('stop_sections', 'resolve'):
                 if kind == 'stop_sections':
                     stop_sections()
